@@ -169,7 +169,9 @@ impl Game {
 
         match maybe_chess_move {
             Some(result) => Ok(result.clone()),
-            None => return Err(GameError::InvalidMove),
+            // The book suggestion is not playable in this position (e.g. the game was
+            // started from a supplied position): fall back to search.
+            None => self.select_alpha_beta_best_move(),
         }
     }
 
